@@ -43,16 +43,16 @@ namespace EngineModel.Properties.C15CratesV2
 open EngineModel EngineModel.Db.Chain EngineModel.Db.V2 EngineModel.Api.GuardedV2
 
 /-- **The mutating operations** (crate, membership, track, table level), with any arguments, through
-the guarded step `stepG` — the model's `step` with (i) every `*opt` / `opt->` of crate_impl.cpp,
+the guarded step `stepG` — the model's `step` with every `*opt` / `opt->` of crate_impl.cpp,
 database_impl.cpp, playlist_entity_table.cpp as a possible `ub empty_optional` behind the C++ guard
-*as regenerated from the source* (`Gen.C15Guards`), and (ii) the recursive view `PlaylistAllChildren`
-(cycle test of set_parent, remove_crate) as a possible `ub nontermination`.  On a state whose parent
-links form a forest, `stepG` IS the model's step (no guard fails to protect its dereference, the view
-ends within its `|Playlist|` steps) and the outcome is a value or an exception.
-(`Db.V2.step` alone has no `ub` outcome; the statement about it would be empty.) -/
-theorem v2c_C15_no_ub (d : Db) (hf : forestOk d.pl = true) (op : Op) :
-    stepG d op = step d op ∧ ∀ u, (stepG d op).2 ≠ .ub u :=
-  ⟨stepG_eq d hf op, stepG_defined d hf op⟩
+*as regenerated from the source* (`Gen.C15Guards`); the recursive view `PlaylistAllChildren` (cycle test
+of set_parent, remove_crate) is the package's own `descendantIds`, `ub nontermination` on a cyclic table.
+`stepG` IS the model's step on ANY state (no guard fails to protect its dereference), and on a state that
+satisfies the crates-2.x invariant `PlInv` (a well-formed forest: kept by every operation, true of the
+empty library) the outcome is a value or an exception — in particular the view terminates. -/
+theorem v2c_C15_no_ub (d : Db) (op : Op) :
+    stepG d op = step d op ∧ (PlInv d → ∀ u, (stepG d op).2 ≠ .ub u) :=
+  ⟨stepG_eq d op, fun hI => stepG_defined d hI.wf op⟩
 
 /-- **Reachable states**: along EVERY script from the empty library (public API and table level, any
 arguments) the guarded run is the model's run and no call has undefined behaviour. -/
@@ -60,16 +60,17 @@ theorem v2c_C15_reachable_no_ub (ops : List Op) :
     runG Db.empty ops = run Db.empty ops ∧ ∀ r ∈ outcomesG Db.empty ops, ∀ u, r ≠ .ub u := by
   refine ⟨runG_eq plInv_empty ops, fun r hr u => ?_⟩
   rw [outcomesG_eq plInv_empty ops] at hr
-  exact outcomes_defined ops Db.empty r hr u
+  exact outcomes_defined ops Db.empty plInv_empty r hr u
 
-/-- The forest hypothesis is needed: on a table whose parent links form a cycle (not reachable through
-the API; a foreign or damaged library) `remove_crate` and `set_parent` evaluate the recursive view
-without end — `stepG` says so, the fuel-bounded `step` silently stops. -/
+/-- The invariant is needed: on a table whose parent links form a cycle (not reachable through the API; a
+foreign or damaged library) `remove_crate` and `set_parent` of a crate on the cycle evaluate the recursive
+view without end. -/
 theorem v2c_C15_cyclic_table_counterexample :
     let d : Db := ⟨[⟨1, 2, 0, [65]⟩, ⟨2, 1, 0, [66]⟩, ⟨3, 0, 0, [67]⟩], 3, [], 0, [], 0⟩
     forestOk d.pl = false ∧
-    (stepG d (.removeCrate 3)).2 = .ub .nontermination ∧ (step d (.removeCrate 3)).2 = .ok none ∧
-    (stepG d (.setParent 3 (some 1))).2 = .ub .nontermination := by
+    (stepG d (.removeCrate 1)).2 = .ub .nontermination ∧
+    (stepG d (.setParent 1 (some 3))).2 = .ub .nontermination ∧
+    queryG d (.descendants 2) = .ub .nontermination := by
   decide +kernel
 
 /-- Each guard is needed (what a regression of the C++ would do to the model): with the `!row` test of
@@ -94,16 +95,17 @@ theorem v2c_C15_walk_terminates {α : Type} {A : Int → List Int} {t : Table α
     walkBackG t k = walkBack t k ∧ ∃ l, walkBack t k = .ok l :=
   walkBackG_eq h k
 
-/-- The recursive view: on a forest it ends within `|Playlist|` steps (guarded = model = a value). -/
-theorem v2c_C15_view_terminates (t : Table Bytes) (hf : forestOk t = true) (c : Int) :
-    descendantIdsG t c = .ok (descendantIds t c) :=
-  descendantIdsG_eq t hf c
+/-- The recursive view: on a well-formed forest it ends within `|Playlist|` levels (theorem
+`descendantIds_ok` of the crates-2.x package, which also says the result is the set of descendants). -/
+theorem v2c_C15_view_terminates (d : Db) (hI : PlInv d) (c : Int) : ∃ l, descendantIds d.pl c = .ok l := by
+  obtain ⟨l, hl, _⟩ := descendantIds_ok hI.wf c
+  exact ⟨l, hl⟩
 
 /-- Every query, for any crate id / name (existing or not), on a state whose two tables represent
-lists and whose parent links form a forest: a value or an exception, and it terminates. -/
+lists and whose Playlist table is a well-formed forest: a value or an exception, and it terminates. -/
 theorem v2c_C15_queries_no_ub (d : Db) {A B : Int → List Int} (hpl : R A d.pl) (hpe : R B d.pe)
-    (hf : forestOk d.pl = true) (q : Query) (u : Ub) : queryG d q ≠ .ub u :=
-  queryG_defined d hpl hpe hf q u
+    (hI : PlInv d) (q : Query) (u : Ub) : queryG d q ≠ .ub u :=
+  queryG_defined d hpl hpe hI.wf q u
 
 /-- The same for the model's own ordered queries (tie-compared with the library). -/
 theorem v2c_C15_ordered_queries_no_ub (d : Db) {A B : Int → List Int} (hpl : R A d.pl) (hpe : R B d.pe)
@@ -124,7 +126,7 @@ existing or not — is a value or an exception and terminates. -/
 theorem v2c_C15_reachable_queries_no_ub (ops : List Op) (hapi : ops.all apiOp = true) (q : Query) (u : Ub) :
     queryG (run Db.empty ops) q ≠ .ub u := by
   obtain ⟨_, _, hI, _⟩ := inv_run inv_empty ops (all_memOp_of_apiOp hapi)
-  exact queryG_defined _ hI.ch.rk hI.ch.re (forestOk_of_plInv hI.pl) q u
+  exact queryG_defined _ hI.ch.rk hI.ch.re hI.pl.wf q u
 
 /-- **The whole public alphabet** of `database` / `crate` over this model: mutations and queries
 interleaved in any order, with any arguments, from the empty library — every outcome is a value or an
@@ -160,7 +162,7 @@ theorem stale_calls (d : Db) (c : Int) (hgone : c ∉ ids d.pl) :
   refine ⟨hex, ?_, ?_, ?_, ?_, ?_, ?_, ?_, ?_⟩
   · rw [qNameG_eq]; simp only [qName, hget]
   · rw [qParentG_eq]; simp only [qParent, hget]
-  · intro n; simp [stepG, stepGW, Guards.source, Gen.C15Guards.v2_crate_set_name_norow, hget]
+  · intro n; simp [stepG, stepGW, Guards.source, Gen.C15Guards.v2_crate_set_name_norow_eq, hget]
   · intro n; simp only [stepG, stepGW, step, hex, Bool.not_false, if_true]
   · intro n a; simp only [stepG, stepGW, hex, Bool.not_false, if_true]
   · intro t; simp only [stepG, stepGW, hex, Bool.not_false, if_true]
@@ -168,17 +170,17 @@ theorem stale_calls (d : Db) (c : Int) (hgone : c ∉ ids d.pl) :
     cases p with
     | none =>
       refine ⟨exn "crate_deleted", ?_⟩
-      simp [stepG, stepGW, Guards.source, Gen.C15Guards.v2_crate_set_parent_self,
-        Gen.C15Guards.v2_crate_set_parent_norow, hget]
+      simp [stepG, stepGW, Guards.source, Gen.C15Guards.v2_crate_set_parent_self_eq,
+        Gen.C15Guards.v2_crate_set_parent_norow_eq, hget]
     | some q =>
       by_cases hq : q = c
       · refine ⟨exn "crate_invalid_parent", ?_⟩
         subst hq
-        simp [stepG, stepGW, Guards.source, Gen.C15Guards.v2_crate_set_parent_self, deref, Res.bind]
+        simp [stepG, stepGW, Guards.source, Gen.C15Guards.v2_crate_set_parent_self_eq, deref, Res.bind]
       · refine ⟨exn "crate_deleted", ?_⟩
         have h1 : (q == c) = false := by simpa using hq
-        simp [stepG, stepGW, Guards.source, Gen.C15Guards.v2_crate_set_parent_self,
-          Gen.C15Guards.v2_crate_set_parent_norow, deref, Res.bind, h1, hget]
+        simp [stepG, stepGW, Guards.source, Gen.C15Guards.v2_crate_set_parent_self_eq,
+          Gen.C15Guards.v2_crate_set_parent_norow_eq, deref, Res.bind, h1, hget]
   · simp only [stepG, stepGW, hex, Bool.not_false, if_true]
 
 /-- **Stale crate handle, along every later history**: once `remove_crate(c)` has succeeded on a state
@@ -260,6 +262,6 @@ example : (step exDb (.rename 2 (List.replicate 300 200))).2 = .ok none := by de
 example : walkBack ([⟨1, 0, 2, ()⟩] : Table Unit) 0 = .ub .oob_read := by decide +kernel
 example : walkBackG ([⟨0, 5, 0, ()⟩] : Table Unit) 5 = .ub .nontermination ∧
     walkBack ([⟨0, 5, 0, ()⟩] : Table Unit) 5 = .ok [⟨0, 5, 0, ()⟩] := by decide +kernel
-example : descendantIdsG [⟨1, 2, 0, nm 'A'⟩, ⟨2, 1, 0, nm 'B'⟩] 7 = .ub .nontermination := by decide +kernel
+example : descendantIds [⟨1, 2, 0, nm 'A'⟩, ⟨2, 1, 0, nm 'B'⟩] 1 = .ub .nontermination := by decide +kernel
 
 end EngineModel.Properties.C15CratesV2
